@@ -152,16 +152,32 @@ def range_arith(u: U):
     import pathlib
 
     case, a, b, s, prop = _http_range_contract(u)
-    size = u.int("file_size", 0)
-    ifr = ("none", "fresh", "stale")[u.choose(3, "if_range")]
+    # If-Range carries ONE validator: an HTTP date or an entity-tag (RFC 9110 13.1.5).  BaseRequest.if_range parses the
+    # date form only and is None for everything else, so the entity-tag forms reach the function through the header.
+    ifr = ("none", "fresh", "stale", "etag_current", "etag_other", "etag_weak_current", "not_a_validator")[
+        u.choose(7, "if_range")]
     mtime = 1000.0
+    mtime_ns = 1000 * 10 ** 9
+    if ifr.startswith("etag") or ifr == "not_a_validator":
+        # the ETag is rendered from the size: concrete sizes for these cases (positions stay symbolic)
+        size = (0, 7, 4096)[u.choose(3, "file_size.concrete")]
+    else:
+        size = u.int("file_size", 0)
+    etag_now = f'"{mtime_ns:x}-{size:x}"' if not is_sym(size) else None
+    raw_if_range = {"none": None, "fresh": "Thu, 01 Jan 1970 00:33:20 GMT", "stale": "Thu, 01 Jan 1970 00:08:20 GMT",
+                    "etag_current": etag_now, "etag_other": '"deadbeef-7"', "etag_weak_current": f"W/{etag_now}",
+                    "not_a_validator": "yesterday"}[ifr]
 
     class _IfRange:
         def timestamp(self):
             return 2000.0 if ifr == "fresh" else 500.0
 
+    from multidict import CIMultiDict, CIMultiDictProxy
+
     method = ("GET", "HEAD")[u.choose(2, "method")]
-    req = u.obj("BaseRequest", {"if_range": None if ifr == "none" else _IfRange(), "method": method},
+    req = u.obj("BaseRequest", {"if_range": _IfRange() if ifr in ("fresh", "stale") else None, "method": method,
+                                "headers": CIMultiDictProxy(CIMultiDict(
+                                    {} if raw_if_range is None else {"If-Range": raw_if_range}))},
                 {"prop.http_range": prop})
     statuses = []
     prepared = []
@@ -176,7 +192,7 @@ def range_arith(u: U):
     class _St:
         st_size = size
         st_mtime = mtime
-        st_mtime_ns = 1000 * 10 ** 9
+        st_mtime_ns = mtime_ns
 
     f = u.load(FR, "FileResponse._prepare_open_file")
     enc = (None, "gzip")[u.choose(2, "file_encoding")]
@@ -189,8 +205,19 @@ def range_arith(u: U):
     hdrs = resp._headers
     cr = hdrs.get("Content-Range")
     clen = fields(resp).get("content_length")
-    range_considered = ifr in ("none", "fresh")  # If-Range absent or validator matches
+    # If-Range absent, or its validator matches the current representation (a date not older than the file; the
+    # current entity-tag under the STRONG comparison - a weak tag never matches); anything else: the Range is ignored
+    range_considered = ifr in ("none", "fresh", "etag_current")
     u.check("C15.range.one_terminal_call", len(prepared) + len(sent) == 1, "exactly one of prepare()/_sendfile()")
+    if ifr in ("etag_other", "etag_weak_current", "not_a_validator") and case != "absent":
+        u.check("C15.range.if_range_validator_must_match", And(status == 200, cr is None),
+                "an If-Range whose validator is not the current one (another entity-tag, a weak tag, or no validator at "
+                "all) makes the server ignore Range and send the whole current file with 200: a 206 here lets a client "
+                "append a slice of the NEW file to its prefix of the OLD one",
+                known=[("F15b", True)], witness={"If-Range": raw_if_range, "range_case": case, "file_size": size})
+    if ifr == "etag_current" and case not in ("absent", "invalid"):
+        u.check("C15.range.if_range_current_etag_keeps_range", status != 200,
+                "the current entity-tag in If-Range keeps the Range in force (206 or 416)")
     if not range_considered or case == "absent":
         u.check("C15.range.full.status", status == 200, "no (applicable) Range: 200")
         u.check("C15.range.full.headers", And(cr is None, clen == size), "no Content-Range, Content-Length = file size")
@@ -666,7 +693,10 @@ def canary_range(u: U):
     b = u.int("last_pos", 0)
     u.assume(a <= b)
     size = u.int("file_size", 0)
-    req = u.obj("BaseRequest", {"if_range": None, "method": "GET"}, {"prop.http_range": lambda self: slice(a, b + 1, 1)})
+    from multidict import CIMultiDict, CIMultiDictProxy
+
+    req = u.obj("BaseRequest", {"if_range": None, "method": "GET", "headers": CIMultiDictProxy(CIMultiDict())},
+                {"prop.http_range": lambda self: slice(a, b + 1, 1)})
     resp = u.obj("FileResponse", {"_status": 200, "_headers": {}, "_path": pathlib.Path("file.bin"), "_compression": False},
                  {"set_status": lambda self, st, reason=None: setattr(self, "_status", st),
                   "super.prepare": lambda self, r: stubs.SAwait(result="W"),
